@@ -118,16 +118,18 @@ def run(ctx):
     recs = load_cases_by_trace(traces)
     harness_sanity(recs)
 
-    # 1. net/http's reference implementation must be a behaviour of the specification, completely
-    rres = lib.validate(ctx, M, C, rtraces, timeout=1500, par=chunks)
+    # 1. net/http's reference implementation must be a behaviour of the specification, completely;  2. the adaptor
+    # (one validate call: lib names the TLC directories by position in the list)
+    allres = lib.validate(ctx, M, C, rtraces + traces, timeout=1500, count=False, par=chunks + 2 if q else chunks)
+    rres, res = allres[:len(rtraces)], allres[len(rtraces):]
+    ctx.cov["events_validated"] += sum(sum(1 for _ in open(t)) for t in traces)
     rbad = sum(len(b) for _, b in rres)
     if rbad:
         t, b = next((t, b) for t, b in rres if b)
         raise lib.Infra("the specification rejects %d line(s) recorded from httptest.ResponseRecorder (net/http's reference "
                         "implementation), e.g. line %d of %s: the specification is wrong, not the adaptor" % (rbad, b[0], t))
     nref = sum(lib.count_cases(t) for t in rtraces)
-    # 2. the adaptor
-    res = lib.validate(ctx, M, C, traces, timeout=1500, par=chunks)
+    ctx.cov["reference_events_validated"] = sum(sum(1 for _ in open(t)) for t in rtraces)
     describe_unknown(ctx, res)
     lib.handle_rejections(ctx, res, lambda cl: rerun(ctx, cl))
     if ctx.violations:
